@@ -368,7 +368,9 @@ def replay_recipe(ctx, exe, scope, rec, trace_module, defs, consts):
 def judge_trace(ctx, tag, trace, res, props, scope, summ=None, died=False, max_report=3, recipe=None):
     """Turn validation results into violations (only for the properties this check owns)."""
     reported = 0
-    mine = [(p, rid) for (p, rid) in res["l2"] if p in props]
+    # props: the contracts this check owns; a dict maps a contract of the trace module to the property it is
+    # reported under (a check may judge a phase by another property's contract that its own statement includes)
+    mine = [((props[p] if isinstance(props, dict) else p), rid) for (p, rid) in res["l2"] if p in props]
     for p, rid in sorted(set(mine), key=lambda x: x[1]):
         if reported >= max_report:
             break
@@ -414,6 +416,12 @@ def impl_phase(ctx, tag, exe, mode_args, scope_args, trace_module, defs, consts,
 
     expect_states: the L0 distinct-state count of the same scope; equality (plus complete
     closure and no L1 drift) is what lets the evidence say `exhaustive`."""
+    if ctx.violations and os.environ.get("VERIF_ALL_PHASES") != "1":
+        # the verdict is decided; a library that breaks the contract can also make later phases arbitrarily
+        # expensive (unbounded state spaces, hangs at every step).  VERIF_ALL_PHASES=1 runs them all the same.
+        ctx.log(f"{tag}: skipped, an earlier phase already established a violation")
+        ctx.notes.append(f"{tag}: not run (violation already established)")
+        return {}, {"l1": [], "l2": []}
     t = time.time()
     trace = ctx.work / f"{tag}.ndjson"
     if mode_args[0] == "replay":
@@ -476,6 +484,9 @@ def finish(ctx, level="model_checking"):
 def gen_replay(ctx, tag, gen_module, defs, consts, depth, num, to_line, exe, scope_args, trace_module, tconsts, props, tdefs=None, per_walk=6):
     """Simulate the model with a history variable, print each behaviour as JSON (Emit constraint), turn every
     behaviour into an op script for the driver's replay mode, and validate the recorded trace (L1 + L2)."""
+    if ctx.violations and os.environ.get("VERIF_ALL_PHASES") != "1":
+        ctx.log(f"{tag}: skipped, an earlier phase already established a violation")
+        return {}
     cfg = ("CONSTANTS\n" + consts + f"\n  GenDepth = {depth}\nSPECIFICATION GSpec\nCONSTRAINT Emit\nCONSTRAINT Bound\nCHECK_DEADLOCK FALSE\n")
     name = "GEN_" + re.sub(r"\W", "_", tag)
     r = tlc(ctx, "gen-" + tag, name, mc_module(name, gen_module, defs), cfg, simulate=f"num={num}", workers=4, timeout=600,
